@@ -17,8 +17,8 @@ impl Property for C11 {
     }
     fn runs(&self, tier: Tier) -> u64 {
         match tier {
-            Tier::Quick => 500,
-            Tier::Thorough => 10000,
+            Tier::Quick => 2000,
+            Tier::Thorough => 40000,
         }
     }
     fn rule(&self) -> &'static str {
